@@ -79,8 +79,13 @@ def run(tier, seed):
     if tie.realbin:
         dd = C.scratch_dir('pi2bin.')
         agree = 0
-        sample = [ln for ln in lines if ln.startswith('V ')][:150 if quick else 1500]
-        for k, ln in enumerate(sample):
+        vlines = [(ln, r[k]) for k, ln in enumerate(lines) if ln.startswith('V ')]
+        nmax = 150 if quick else 1500
+        accs = [x for x in vlines if x[1].startswith('ACCEPT')]
+        rejs = [x for x in vlines if not x[1].startswith('ACCEPT')]
+        sample = accs[:nmax // 2] + rejs[:nmax - min(len(accs), nmax // 2)]
+        two_arg = 0
+        for k, (ln, verdict) in enumerate(sample):
             f = ln.split()
             paths = []
             for j, h in enumerate(f[1:4]):
@@ -88,13 +93,39 @@ def run(tier, seed):
                 with open(pth, 'wb') as fh:
                     fh.write(bytes(G.unhex(h)))
                 paths.append(pth)
-            rc = subprocess.run([tie.realbin, *paths], capture_output=True).returncode
-            exp = r[lines.index(ln)].startswith('ACCEPT')
-            if (rc == 0) == exp:
-                agree += 1
+            exp = verdict.startswith('ACCEPT')
+            forms = [paths]
+            if f[2] == '-':
+                forms.append([paths[0], paths[2]])      # `checker gamma proof`: the claim file is /dev/null
+                two_arg += 1
+            for args in forms:
+                rc = subprocess.run([tie.realbin, *args], capture_output=True).returncode
+                if (rc == 0) == exp:
+                    agree += 1
+                else:
+                    R.violation('binary-exit-status', 'real main.rs exit status disagrees with verify() verdict',
+                                {'request': ln, 'argv': len(args), 'exit_code': rc, 'harness_verdict': verdict})
+        # the driver's own error paths: wrong number of arguments, unreadable file -> never exit status 0
+        ok_file = os.path.join(dd, 'empty.bin')
+        open(ok_file, 'wb').close()
+        for args, what in (([], 'no arguments'), ([ok_file], 'one argument'), ([ok_file] * 4, 'four arguments'),
+                           ([os.path.join(dd, 'missing.bin'), ok_file, ok_file], 'missing gamma file'),
+                           ([ok_file, os.path.join(dd, 'missing.bin'), ok_file], 'missing claim file'),
+                           ([ok_file, ok_file, os.path.join(dd, 'missing.bin')], 'missing proof file'),
+                           ([ok_file, os.path.join(dd, 'missing.bin')], 'missing proof file (two-argument form)')):
+            rc = subprocess.run([tie.realbin, *args], capture_output=True).returncode
+            if rc == 0:
+                R.violation('binary-exit-status:driver-error-ignored', f'real main.rs exits 0 on {what}', {'argv': args, 'exit_code': rc})
             else:
-                R.violation('binary-exit-status', 'real main.rs exit status disagrees with verify() verdict',
-                            {'request': ln, 'exit_code': rc, 'harness_verdict': r[lines.index(ln)]})
+                agree += 1
+        # three empty files: accepted (no claims, nothing to prove) in both forms
+        for args in ([ok_file, ok_file, ok_file], [ok_file, ok_file]):
+            rc = subprocess.run([tie.realbin, *args], capture_output=True).returncode
+            if rc != 0:
+                R.violation('binary-exit-status:empty-input-rejected', 'real main.rs rejects empty gamma/claims/proof', {'argv': len(args), 'exit_code': rc})
+            else:
+                agree += 1
+        R.hist['real_binary_two_argument_form_sampled'] = two_arg
         R.hist['real_binary_exit_status_agreeing'] = agree
         R.hist['real_binary_exit_status_sampled'] = len(sample)
     else:
